@@ -25,7 +25,10 @@
 (* CONSTANT in a cfg or INSTANCE at every use -- measured: 80 times per state.) *)
 EXTENDS Integers, Sequences, FiniteSets, TLC
 
-CONSTANTS Family, NSet, KSet, BSet, MVal, MaxIP
+CONSTANTS Families,   \* the families to instantiate
+          NSet,       \* goroutine counts (stages for pipeline; producers AND consumers for prodcons)
+          BSet,       \* buffer sizes
+          MaxIP
 
 C(x) == <<"c", x>>
 V(x) == <<"v", x>>
@@ -283,14 +286,17 @@ TProgL == [f \in FnNames |->
       (* 7*) <<"wgwait", "H">>,
       (* 8*) <<"ret">> >> )
   [] f = "imain" -> (<<
-      (* 1*) <<"wgadd", "W", C(2)>>,
+      (* 1*) <<"wgadd", "W", C(1)>>,
       (* 2*) <<"go", "iworker", <<V("id"), V("m")>>>>,
-      (* 3*) <<"go", "iworker", <<V("id"), V("m")>>>>,
-      (* 4*) <<"wgwait", "W">>,
-      (* 5*) <<"load", "t", "cnt">>,
-      (* 6*) <<"print", <<V("id"), V("t")>>>>,
-      (* 7*) <<"wgdone", "H">>,
-      (* 8*) <<"ret">> >> )
+      (* 3*) <<"lock", "MU">>,
+      (* 4*) <<"load", "t", "cnt">>,
+      (* 5*) <<"store", "cnt", Add(V("t"), V("id"))>>,
+      (* 6*) <<"unlock", "MU">>,
+      (* 7*) <<"wgwait", "W">>,
+      (* 8*) <<"load", "t", "cnt">>,
+      (* 9*) <<"print", <<V("id"), V("t")>>>>,
+      (*10*) <<"wgdone", "H">>,
+      (*11*) <<"ret">> >> )
   [] f = "iworker" -> (<<
       (* 1*) <<"set", "j", C(1)>>,
       (* 2*) <<"jz", Le(V("j"), V("m")), 9>>,
@@ -310,9 +316,19 @@ TProg == TProgL @@ <<>>
 TParams == TParamsL @@ <<>>
 
 \* ------------------------------------------------------------------ instances
-Mk(n, k, b) == [t |-> Family, fn |-> "main_" \o Family, args |-> <<n, k, b, MVal>>,
-                n |-> n, k |-> k, b |-> b, m |-> MVal]
-TStarts == {Mk(n, k, b) : n \in NSet, k \in KSet, b \in BSet}
+Mk(f, n, k, b, m) == [t |-> f, fn |-> "main_" \o f, args |-> <<n, k, b, m>>,
+                      n |-> n, k |-> k, b |-> b, m |-> m]
+Many == NSet \ {1}
+InstancesOf(f) ==
+    CASE f = "pipeline" -> {Mk(f, 0, k, b, 3) : k \in NSet, b \in BSet}
+      [] f \in {"pool", "drain"} -> {Mk(f, n, 0, b, 3) : n \in NSet, b \in BSet}
+      [] f = "privsel"  -> {Mk(f, n, 0, b, 2) : n \in Many, b \in BSet \cap {0, 1}}     \* b: capacity of quit
+      [] f = "counter"  -> {Mk(f, n, k, 0, 2) : n \in Many, k \in {1, 2}}               \* k: rendering form
+      [] f = "nolock"   -> {Mk(f, 2, 0, 0, 2)}
+      [] f = "prodcons" -> {Mk(f, n, k, b, 2) : n \in NSet, k \in NSet, b \in BSet}
+      [] f = "host"     -> {Mk(f, n, 0, 0, 2) : n \in Many}
+      [] f = "interps"  -> {Mk(f, n, 0, 0, 1) : n \in Many}
+TStarts == UNION {InstancesOf(f) : f \in Families}
 
 THost == {"H"}
 TIPs == 0..MaxIP
@@ -340,7 +356,7 @@ ExpectOf(i) ==
       [] i.t \in {"counter", "nolock"} -> << <<n * m>> >>
       [] i.t = "prodcons" -> << <<TagSums(n, m)>> >>
       [] i.t = "host"     -> [x \in 1..n |-> <<x, TagSum(x, m)>>] \o << <<0, TagSums(n, m)>> >>
-      [] i.t = "interps"  -> [x \in 1..n |-> <<x, 2 * m * x>>]
+      [] i.t = "interps"  -> [x \in 1..n |-> <<x, (m + 1) * x>>]
 
 BagOf(s) == [x \in {s[i] : i \in DOMAIN s} |-> Cardinality({i \in DOMAIN s : s[i] = x})]
 ===============================================================================
